@@ -388,6 +388,10 @@ func runConv(r *engine.Run) {
 				r.Skip()
 				continue
 			}
+			if am := h.models["a"][i]; o.name == "Value.ToString" && am.K == conv.String && conv.HasLoneSurrogate(am.S) {
+				r.Skip() // a Go string cannot carry a lone surrogate: outside ES5 (Go API, C15)
+				continue
+			}
 			convCase(r, h, key, o, h.models["a"][i], h.real["a"][i], a.name)
 		}
 	}
